@@ -35,6 +35,24 @@ var vTemplates = [...]struct{ pre, post string }{
 	25: {"INVITE ", "\r\nX"},
 	26: {"SIP/2.0 200 ", "X"},
 	27: {"A B ", "X"},
+	// windows at structural boundaries
+	28: {"INVITE sip:a SIP/2.0\r\n", ":x\r\n\r\n"},     // symbolic header name
+	29: {"INVITE sip:a SIP/2.0\r\nX:a", "b\r\n\r\n"},   // inside a generic value (folds, line ends)
+	30: {"INVITE sip:a SIP/2.0", "f:a\r\n\r\n"},        // end of the first line
+	31: {"INVITE sip:a SIP/2.0\r\nf:a", ""},             // end of the header block
+	32: {"INVITE sip:a SIP/2.0\r\nVia: SIP/2.0/UDP h;branch=z9hG4bKx\r\nm:", "\r\nm:<b>\r\n\r\n"},
+	33: {"SIP/2.0 200 OK\r\nf:<a>;tag=", "\r\nt:b\r\n\r\n"},
+	34: {"INVITE sip:a SIP/2.0\r\nContact: <a>,", "\r\n\r\n"},
+	35: {"INVITE sip:a SIP/2.0\r\nP-Asserted-Identity: <a>,", "\r\n\r\n"},
+	36: {"INVITE sip:a SIP/2.0\r\nRoute:", "\r\n\r\n"},
+	// numbers at their limits (the window supplies the last digits)
+	37: {"INVITE sip:a SIP/2.0\r\nl:1677721", "\r\n\r\n"},
+	38: {"INVITE sip:a SIP/2.0\r\nCSeq: 429496729", " A\r\n\r\n"},
+	39: {"INVITE sip:a SIP/2.0\r\nExpires:429496729", "\r\n\r\n"},
+	40: {"l:1677721", "\r\nX"},
+	41: {"CSeq:429496729", " A\r\nX"},
+	42: {"Expires: 429496729", "\r\nX"},
+	43: {"m:<a>;expires=429496729", "\r\nX"},
 }
 
 // vTpl builds template t with a window of w symbolic bytes.
